@@ -70,7 +70,13 @@ type Contract struct {
 	Lemmas    []string // opt-in lemma families (bvarith)
 	Fresh     []string // components written only in objects allocated during the call
 	LoopFresh map[int][]string
+	KFExcept  []KFClause
 	Appends   []string // ghost logs that receive exactly one entry per call (trusted primitives only)
+}
+
+type KFClause struct {
+	Obligation string
+	Clause     *Clause
 }
 
 type Pinned struct {
@@ -102,6 +108,7 @@ type ContractSet struct {
 	typeInvs map[string][]*Clause
 	immutables []Immutable
 	pinned     []Pinned
+	srcPkgs    []string
 }
 
 var labelRe = regexp.MustCompile(`^([A-Za-z][A-Za-z0-9_.\-@]*):\s+`)
@@ -147,6 +154,9 @@ func (cs *ContractSet) parseContractText(file string, lines []string, lineNos []
 			a, p := splitWord(rest)
 			p = strings.Trim(strings.TrimSpace(p), `"`)
 			cs.imports[a] = p
+		case "srcpkg":
+			// srcpkg <import path>: generated accessor methods (Get*) of this dependency are executed inline
+			cs.srcPkgs = append(cs.srcPkgs, strings.Trim(strings.TrimSpace(rest), `"`))
 		case "pinned":
 			// pinned <callee> <Go string literal>: every call of callee passes exactly this constant
 			w, lit := splitWord(rest)
